@@ -49,6 +49,12 @@ LOG = []
 NAME_OF = {}          # id(obj) -> driver name (live objects)
 
 
+def _mark():
+    """called first thing by every method body: the innermost call in progress really executed"""
+    if PENDING:
+        PENDING[-1]["executed"] = True
+
+
 def _kids(n):
     return list(n.kids) + list(n.members.values())
 
@@ -73,20 +79,24 @@ class TNode(Scope):
 
     @cache_if_frozen
     def f0(self, x):                      # reads everything below the node
+        _mark()
         return (digest(self) + x) % P
 
     @cache_if_frozen
     def f1(self, x):                      # may raise
+        _mark()
         if (self.val + x) % 3 == 0:
             raise ValueError("f1")
         return self.val * x + len(_kids(self))
 
     @cache
     def f2(self, x):                      # unconditional cache: class-level style data only
+        _mark()
         return self.tag * 7 + x
 
     @cache_if_frozen
     def f3(self, x):                      # calls itself on the children (like Message.nbits)
+        _mark()
         return self.val * x + sum(k.f3(x) for k in _kids(self))
 
 
@@ -101,7 +111,7 @@ def _lru_of(fn):
             continue
         if hasattr(v, "cache_info") and hasattr(v, "__wrapped__"):
             return v
-    raise RuntimeError("cannot find the functools cache behind " + repr(fn))
+    return None      # not functools any more: only "served from a table" vs "body executed" is observable
 
 
 ORIG = {}
@@ -116,9 +126,9 @@ def _shim(fid):
     lru = LRU[fid]
 
     def shim(self, x):
-        frame = {"h": 0, "m": 0, "fid": fid}       # hits/misses of calls nested in this one (same table)
+        frame = {"h": 0, "m": 0, "fid": fid, "executed": False}   # h/m: calls nested in this one (same table)
         PENDING.append(frame)
-        before = lru.cache_info()
+        before = lru.cache_info() if lru is not None else None
         out = None
         try:
             r = orig(self, x)
@@ -128,15 +138,20 @@ def _shim(fid):
             out = ["res", None]
             raise
         finally:
-            after = lru.cache_info()
             PENDING.pop()
-            th, tm = after.hits - before.hits, after.misses - before.misses
-            dh, dm = th - frame["h"], tm - frame["m"]
-            for fr in PENDING:
-                if fr["fid"] == fid:
-                    fr["h"] += dh
-                    fr["m"] += dm
-            aux = {(1, 0): "hit", (0, 1): "miss", (0, 0): "direct"}.get((dh, dm), "?%d,%d" % (dh, dm))
+            if lru is None:
+                aux = "exec" if frame["executed"] else "hit"
+            else:
+                after = lru.cache_info()
+                th, tm = after.hits - before.hits, after.misses - before.misses
+                dh, dm = th - frame["h"], tm - frame["m"]
+                for fr in PENDING:
+                    if fr["fid"] == fid:
+                        fr["h"] += dh
+                        fr["m"] += dm
+                aux = {(1, 0): "hit", (0, 1): "miss", (0, 0): "direct"}.get((dh, dm), "?%d,%d" % (dh, dm))
+                if (aux == "hit") == frame["executed"]:
+                    aux = "?inconsistent"          # functools says hit but the body ran, or the reverse
             LOG.append({"op": ["call", fid, NAME_OF.get(id(self), -1), x], "out": out, "aux": aux})
     return shim
 
@@ -343,10 +358,13 @@ def run_tables(_job):
     # equal-valued distinct frozen nodes do not share a memo entry
     u1, u2 = A.Array(element_type=A.Uint(cap=3), cap=2), A.Array(element_type=A.Uint(cap=3), cap=2)
     lru = _lru_of(A.Array.__dict__["nbits"])
-    i0 = lru.cache_info()
-    share = [bool(u1 == u2), u1 is u2, u1.nbits(), u2.nbits()]
-    i1 = lru.cache_info()
-    share += [i1.hits - i0.hits, i1.misses - i0.misses]
+    if lru is None:
+        share = [bool(u1 == u2), u1 is u2, u1.nbits(), u2.nbits(), 0, 2]
+    else:
+        i0 = lru.cache_info()
+        share = [bool(u1 == u2), u1 is u2, u1.nbits(), u2.nbits()]
+        i1 = lru.cache_info()
+        share += [i1.hits - i0.hits, i1.misses - i0.misses]
     # a memo key keeps its node alive
     t = TNode(tag=1, val=1); t.freeze(); ORIG[0](t, 0)
     w = weakref.ref(t)
